@@ -6,6 +6,7 @@
 
 struct Prng {
   uint64_t s[4];
+  static inline uint64_t rotl(uint64_t x, int k) { return (x << k) | (x >> (64 - k)); }
   static uint64_t splitmix(uint64_t &x) {
     uint64_t z = (x += 0x9e3779b97f4a7c15ULL);
     z = (z ^ (z >> 30)) * 0xbf58476d1ce4e5b9ULL;
@@ -15,10 +16,13 @@ struct Prng {
   Prng() { seed(1, 0); }
   Prng(uint64_t sd, uint64_t purpose) { seed(sd, purpose); }
   void seed(uint64_t sd, uint64_t purpose) {
-    uint64_t x = sd * 0x9e3779b97f4a7c15ULL + purpose * 0xd1342543de82ef95ULL + 0x1234567ULL;
+    // the start point of the splitmix sequence is itself a hash of (seed, purpose): with a start point linear in the seed, consecutive
+    // seeds would share three of their four state words (shifted by one), and neighbouring seeds would draw correlated cases
+    uint64_t a = sd ^ 0x6a09e667f3bcc909ULL, b = purpose + 0xbb67ae8584caa73bULL;
+    uint64_t x = splitmix(a) ^ rotl(splitmix(b), 23);
+    x = splitmix(x);
     for (int i = 0; i < 4; i++) s[i] = splitmix(x);
   }
-  static inline uint64_t rotl(uint64_t x, int k) { return (x << k) | (x >> (64 - k)); }
   uint64_t next() {
     uint64_t r = rotl(s[1] * 5, 7) * 9, t = s[1] << 17;
     s[2] ^= s[0]; s[3] ^= s[1]; s[1] ^= s[2]; s[0] ^= s[3]; s[2] ^= t; s[3] = rotl(s[3], 45);
